@@ -241,6 +241,7 @@ func (w *FileWriter) WriteSync(record []byte) (uint64, error) {
 		return 0, DirectIOSyncWriteErr
 	}
 
+	prevOffset := w.currentOffset
 	offset, err := w.Write(record)
 	if err != nil {
 		return 0, fmt.Errorf("failed to write record to file at '%s' failed with %w", w.file.Name(), err)
@@ -253,10 +254,35 @@ func (w *FileWriter) WriteSync(record []byte) (uint64, error) {
 
 	err = w.file.Sync()
 	if err != nil {
-		return 0, fmt.Errorf("failed to sync file at '%s' failed with %w", w.file.Name(), err)
+		// the caller is told that the record was not written, so it must not be found in the file either: a reader (a
+		// WAL replay after a crash) would take it for a record like all the others
+		err = fmt.Errorf("failed to sync file at '%s' failed with %w", w.file.Name(), err)
+		undoErr := w.truncateTo(prevOffset)
+		if undoErr != nil {
+			// the record can't be taken back: nothing may follow it
+			w.open = false
+			return 0, errors.Join(err, undoErr)
+		}
+		return 0, err
 	}
 
 	return offset, nil
+}
+
+// truncateTo takes back everything that was written behind the given offset and continues writing from there.
+func (w *FileWriter) truncateTo(offset uint64) error {
+	_, err := w.bufWriter.Seek(int64(offset), io.SeekStart)
+	if err != nil {
+		return err
+	}
+
+	err = w.file.Truncate(int64(offset))
+	if err != nil {
+		return err
+	}
+
+	w.currentOffset = offset
+	return nil
 }
 
 func (w *FileWriter) Close() error {
